@@ -24,6 +24,9 @@ type c04Src struct {
 // latched the source's error never gets here (C04: the source's own error is what surfaces)
 var c04ErrReadAfterError = errors.New("c04: source read again after it reported its error")
 
+var c04RelErr = errors.New("the caller's own processing error")
+var relN int
+
 func (s *c04Src) Read(p []byte) (int, error) {
 	s.reads++
 	room := len(p)
@@ -133,7 +136,12 @@ func c04RunOps(r bufiox.Reader, ops []V) V {
 		case 4:
 			outs = append(outs, Ls(I(5), I(r.ReadLen())))
 		case 5:
-			r.Release(nil)
+			// Release(e): e is the caller's own processing error; it must make no difference to the reader
+			if relN++; relN&1 == 0 {
+				r.Release(c04RelErr)
+			} else {
+				r.Release(nil)
+			}
 			outs = append(outs, Ls(I(3)))
 		}
 	}
